@@ -942,8 +942,9 @@ example :
 
 /-! ## The reserve ledger: reserve module balance vs the book-keeping records -/
 
-/-- no message of the history is signed by the reserve module account (module accounts hold no key) -/
-def SignersOk (cfg : Cfg) (ops : List Op) : Prop := ∀ op ∈ ops, op.signer ≠ some cfg.reserveAcct
+/-- no message of the history is signed by the reserve module account (module accounts hold no key), and the history has no run of the
+x/lend block hook (`beginBlock`: it sweeps a deleted pool's funds into the reserve with no flow record — `reserve_ledger_poolsweep_counterexample`) -/
+def SignersOk (cfg : Cfg) (ops : List Op) : Prop := ∀ op ∈ ops, op.signer ≠ some cfg.reserveAcct ∧ op.isBeginBlock = false
 instance (cfg : Cfg) (ops : List Op) : Decidable (SignersOk cfg ops) := by unfold SignersOk; infer_instance
 
 theorem init_own (cfg : Cfg) (bank : Bank) (prices : List (Nat × Nat)) : Own cfg (init cfg bank prices) :=
@@ -960,7 +961,7 @@ theorem run_ledger {cfg : Cfg} (ok : CfgOk cfg) {bank0 : Bank} (ops : List Op) {
     unfold apply
     split
     · rename_i s' hstep
-      exact ih hrest (step_own hop hstep o) (resLedger_step l (step_bal ok hop hstep o))
+      exact ih hrest (step_own hop.1 hstep o) (resLedger_step l (step_bal ok hop.1 hop.2 hstep o))
     · exact ih hrest o l
 
 /-- **Reserve ledger** — for every configuration whose module accounts are distinct accounts, every genesis bank and prices, and every
@@ -992,5 +993,75 @@ example : CfgOk cfgP ∧ SignersOk cfgP opsC ∧
     (run cfgP (init cfgP bankP pricesH) opsC).bank.get cfgP.reserveAcct 2 = 2 ∧
     (getResv (run cfgP (init cfgP bankP pricesH) opsC).resv 2).flow = 2 := by
   refine ⟨⟨by decide, by decide⟩, by decide, by decide, by decide⟩
+
+/-! ## The block hook of x/lend: pool deletion -/
+
+theorem sweepPool_delPools {cfg : Cfg} {s s' : State} {p q : Nat} (h : sweepPool cfg s p = .ok s') (hq : s.delPools.contains q = true) :
+    s'.delPools.contains q = true := by
+  unfold sweepPool at h
+  invert h
+  · simp only [List.contains_cons]; rw [hq]; simp
+  · exact hq
+
+theorem sweepPools_dead {cfg : Cfg} (ps : List Nat) {s : State} {p : Nat} (hp : p ∈ ps) (hd : s.delPools.contains p = true) :
+    (sweepPools cfg s ps).toBool = false := by
+  induction ps generalizing s with
+  | nil => cases hp
+  | cons q ps ih =>
+    simp only [sweepPools, bind, Except.bind]
+    cases hs : sweepPool cfg s q with
+    | error e => rfl
+    | ok s1 =>
+      rcases List.mem_cons.mp hp with rfl | hp'
+      · exfalso
+        unfold sweepPool at hs
+        invert hs
+        all_goals exact bnot_contra ‹(!s.delPools.contains p) = true› hd
+      · exact ih hp' (sweepPool_delPools hs hd)
+
+/-- **The hook is dead after its first pool deletion**: the deleted pool's entry stays pending (the flag is set on a copy of the
+entry, pair.go:655-657), the next run reads the deleted pool as a zero record and panics on the empty denomination — so the whole
+hook, with every other pending entry, is rolled back, at every later run. -/
+theorem beginBlock_dead_after_deletion (cfg : Cfg) (s : State) (p : Nat) (hp : p ∈ s.depPending) (hd : s.delPools.contains p = true) :
+    (beginBlock cfg s).toBool = false := sweepPools_dead s.depPending hp hd
+
+/-- a pending entry stays pending and a deleted pool stays deleted, whatever the hook does -/
+theorem beginBlock_keeps_pending {cfg : Cfg} {s s' : State} (h : beginBlock cfg s = .ok s') : s'.depPending = s.depPending := by
+  have key : ∀ (ps : List Nat) (s s' : State), sweepPools cfg s ps = .ok s' → s'.depPending = s.depPending := by
+    intro ps
+    induction ps with
+    | nil => intro s s' h; unfold sweepPools at h; cases h; rfl
+    | cons q ps ih =>
+      intro s s' h
+      simp only [sweepPools] at h
+      invert h
+      rename_i s1 hs
+      have h1 : s1.depPending = s.depPending := by
+        unfold sweepPool at hs
+        invert hs <;> rfl
+      rw [ih _ _ ‹sweepPools cfg _ ps = .ok s'›, h1]
+  exact key _ _ _ h
+
+/-- two pools; pool 2 {A = 2 (main), B = 3, C = 4}; user 1 lends 50 A in pool 2 and closes; the pool holds 7 B from a funding message -/
+def cfgD : Cfg :=
+  { assets := [⟨1, 1⟩, ⟨2, 1⟩, ⟨3, 1⟩, ⟨4, 1⟩, ⟨5, 1⟩, ⟨6, 1⟩, ⟨7, 1⟩],
+    rates := [⟨2, 500000000000000000, 0, 5, false, false, 0, 0⟩, ⟨3, 500000000000000000, 0, 6, false, false, 0, 0⟩, ⟨4, 500000000000000000, 0, 7, false, false, 0, 0⟩],
+    pools := [⟨2, 102, [⟨2, 1, 1000000000000000000000000000000000000⟩, ⟨3, 2, 1000000000000000000000000000000000000⟩, ⟨4, 3, 1000000000000000000000000000000000000⟩]⟩],
+    apps := [(1, true)] }
+def bankD : Bank := [((1, 2), 100), ((1, 3), 100)]
+def pricesD : List (Nat × Nat) := [(2, 1000000), (3, 1000000), (4, 1000000)]
+def opsD : List Op := [.lend 1 2 2 50 2 1 0, .fundModule 1 2 3 3 7, .closeLend 1 1 0, .setDepreciated 2 false, .beginBlock]
+
+/-- **Counterexample (pool sweep)**: every step is accepted; the hook moves the 7 B the pool still holds into the reserve — both record
+halves move by ⌊7/2⌋ = 3 — but no flow record names them: the reserve holds 7 B while genesis + recorded net inflow is 0; the pool is
+deleted, its entry is still pending, and the next run of the hook fails. -/
+theorem reserve_ledger_poolsweep_counterexample :
+    allAccepted cfgD (init cfgD bankD pricesD) opsD = true ∧
+    (run cfgD (init cfgD bankD pricesD) opsD).bank.get cfgD.reserveAcct 3 = 7 ∧
+    (getResv (run cfgD (init cfgD bankD pricesD) opsD).resv 3).flow = 0 ∧
+    (getResv (run cfgD (init cfgD bankD pricesD) opsD).resv 3).reserve = 3 ∧
+    ¬ resLedgerOn cfgD bankD (run cfgD (init cfgD bankD pricesD) opsD) [3] = true ∧
+    (run cfgD (init cfgD bankD pricesD) opsD).delPools = [2] ∧ (run cfgD (init cfgD bankD pricesD) opsD).depPending = [2] ∧
+    (step cfgD (run cfgD (init cfgD bankD pricesD) opsD) .beginBlock).toBool = false := by decide
 
 end Comdex.C08
